@@ -62,7 +62,12 @@ class Lens:
             if k[0] != "const" or not isinstance(k[1], int) or isinstance(k[1], bool):
                 continue
             if a != want:
-                continue
+                # the same comparison with the depth cut of canon() aligned: compare the operand of len() itself
+                lt = df.strip(l[2])
+                inner = lt[3][0] if (lt[0] == "call" and lt[2] == "len" and len(lt[3]) == 1) else \
+                    (lt[2] if (lt[0] == "un" and lt[1] == "PtrMetadata") else None)
+                if inner is None or norm_len(df.canon(df.strip(inner), self.b)) != norm_len(subject_s):
+                    continue
             if l[1] in ("ge", "eq"):
                 best = max(best, k[1])
             elif l[1] == "gt":
